@@ -88,9 +88,15 @@ theorem inOff_write (crc : List UInt8 → Nat) (s : XWState) (d : List UInt8) :
       rw [hi]
       exact ⟨rfl, by omega⟩
 
-/-- the compressor never hands back xflate's own "closed" error for a call
-    during which the sink refused bytes. (In Go `errClosed` is a value private to
-    package xflate, so compress/flate cannot return it at all.) -/
+/-- the compressor never hands back the writer's own "closed" state for a call
+    during which the sink refused bytes. In the model `err = some .closed` IS the
+    writer's closed state. This hypothesis was the excluded point at which the real
+    code failed (defect D12): Go's `errClosed` is a comparable struct value, a sink
+    can return an equal error (a Closed-coded error with an empty message), and
+    `Close` then returned nil without a footer. Since the repair (commit 07800e8) the
+    closed state is the separate flag `done`, which no sink can set, so the
+    hypothesis holds of the Go code by construction; the harness injects such sink
+    errors (tag 100, printed "closed") and the model keeps them apart as `.other 100`. -/
 def ZErrNotClosed (oracle : List ZEv) : Prop :=
   ∀ ev ∈ oracle, ev.sinkFailed = true → ev.err ≠ some .closed
 
